@@ -294,6 +294,7 @@ pub fn step_strategy(cfg: &Cfg, p: Profile) -> BoxedStrategy<Step> {
         (if structural { 8 } else { 4 }, (0..slots, k_strategy()).prop_map(|(slot, k)| Step::Remove { slot, k }).boxed()),
         (if split { 16 } else if lossy { 12 } else { 8 }, (0..slots, k_strategy()).prop_map(|(slot, k)| Step::Mutate { slot, k }).boxed()),
         (if split { 4 } else { 0 }, (0..slots, 0u16..48).prop_map(|(slot, len)| Step::Resize { slot, len }).boxed()),
+        (if split { 8 } else if lossy { 1 } else { 0 }, k_strategy().prop_map(|k| Step::MutateAll { k }).boxed()),
         (
             if cfg.policy == 0 { 10 } else { 6 },
             if tight { prop_oneof![1 => Just(true), 1 => Just(false)].boxed() } else { prop_oneof![2 => Just(true), 1 => Just(false)].boxed() }
@@ -302,9 +303,9 @@ pub fn step_strategy(cfg: &Cfg, p: Profile) -> BoxedStrategy<Step> {
         ),
         (8, (0..clients).prop_map(|client| Step::ClientFrame { client }).boxed()),
         (6, (0..clients, 1..3usize).prop_map(|(client, n)| Step::DeliverUpd { client, n }).boxed()),
-        (8, (0..clients, any::<u16>()).prop_map(|(client, idx)| Step::DeliverMut { client, idx }).boxed()),
-        (if lossy { 5 } else { 2 }, (0..clients, any::<u16>()).prop_map(|(client, idx)| Step::DropMut { client, idx }).boxed()),
-        (if split { 8 } else if lossy { 2 } else { 0 }, (0..clients, any::<u8>(), any::<bool>()).prop_map(|(client, mask, ack)| Step::PartialMut { client, mask, ack }).boxed()),
+        (if split { 2 } else { 8 }, (0..clients, any::<u16>()).prop_map(|(client, idx)| Step::DeliverMut { client, idx }).boxed()),
+        (if split { 1 } else if lossy { 5 } else { 2 }, (0..clients, any::<u16>()).prop_map(|(client, idx)| Step::DropMut { client, idx }).boxed()),
+        (if split { 14 } else if lossy { 2 } else { 0 }, (0..clients, any::<u8>(), any::<bool>()).prop_map(|(client, mask, ack)| Step::PartialMut { client, mask, ack }).boxed()),
         (if lossy { 4 } else { 6 }, (0..clients, 1..3usize).prop_map(|(client, n)| Step::DeliverAck { client, n }).boxed()),
         (2, (0..clients).prop_map(|client| Step::Connect { client }).boxed()),
     ];
